@@ -59,6 +59,7 @@ Emit(id, kind, fault, segs, must) == PrintT("S|" \o ToJson([id |-> id, steps |->
 \* undocumented word of the tile-group header (regenerated); unkOff = 0 means "layout not known, no such demand"
 NonStructural == {"ver", "ver2", "ver3", "saved", "unknown", "src.numTiles"}
 IndexOfPart(parts, name) == CHOOSE i \in 1..Len(parts) : parts[i].n = name
+LastIndexOfPart(parts, name) == CHOOSE i \in 1..Len(parts) : parts[i].n = name /\ \A j \in (i + 1)..Len(parts) : parts[j].n # name
 EmitMap(id, fault, parts, must, layoutKnown) ==
   PrintT("S|" \o ToJson([id |-> id, steps |-> << [op |-> "robust_map", kind |-> "map", fault |-> fault, segs |-> Segs(parts), must |-> must,
                                                    flagOff |-> OffsetOf(parts, IndexOfPart(parts, "saved")),
@@ -67,10 +68,12 @@ EmitMap(id, fault, parts, must, layoutKnown) ==
 Cuts(a, b) == {a, a + 1, b - 1} \cup {a + Pow2(k) : k \in {x \in 0..17 : a + Pow2(x) < b}}
 Init == done = FALSE
 Next == /\ ~done /\ done' = TRUE
-        /\ \A bi \in 1..5 :
+        /\ \A bi \in 1..6 :
              LET m == IF bi = 1 THEN Base(1, 2, FALSE) ELSE IF bi = 2 THEN Base(5, 1, TRUE) ELSE IF bi = 3 THEN Base(0, 0, FALSE)
                       ELSE IF bi = 4 THEN [Base(1, 2, FALSE) EXCEPT !.groups = <<>>]                       \* no tile groups: the file ends with the unknown word
-                      ELSE [Base(0, 1, FALSE) EXCEPT !.groups = <<>>, !.sources = <<>>, !.mappings = <<>>]    \* the smallest non-empty map
+                      ELSE IF bi = 5 THEN [Base(0, 1, FALSE) EXCEPT !.groups = <<>>, !.sources = <<>>, !.mappings = <<>>]    \* the smallest non-empty map
+                      ELSE [Base(0, 1, FALSE) EXCEPT !.groups = << [w |-> 1, h |-> 1, idx |-> << <<1,0,0,0>> >>, name |-> <<82, 111, 0, 0, 107>>], [w |-> 1, h |-> 0, idx |-> <<>>, name |-> <<82, 0, 0>>] >>,
+                                                    !.sources = << [name |-> <<119, 0, 108>>, n |-> <<7,0,0,0>>] >>]     \* names with NUL bytes inside and at the end: a name is its declared length
                  parts == MapParts(m, <<0,0,0,0>>, <<1,0,0,0>>)
                  total == SegsLen(Segs(parts)) IN
              /\ Assert(FlattenSegs(Segs(parts)) = FlattenSegs(EncodeWith(m, <<0,0,0,0>>, <<1,0,0,0>>, <<>>)), "the parts view is the MapFile encoding")
@@ -100,6 +103,19 @@ Next == /\ ~done /\ done' = TRUE
                  ti == CHOOSE i \in 1..Len(base) : base[i].n = "tiles"
                  wrapped == [base EXCEPT ![li].s = Lit(LE32(lg)), ![hi].s = Lit(LE32(Pow2(32 - lg) + r)), ![ti].s = Zr(4 * r * Pow2(lg))]
              IN Emit(<<"dimension-wrap", kind, lg, r>>, kind, "lgWidth+height+tiles", Segs(wrapped), "any")
+        \* coordinated: a LAST tile group whose width x height is 2^32 or more - the reader sizes the index list with the 32-bit product, so
+        \* with exactly that many indices present the file is accepted, and what is accepted must be written back (C06)
+        /\ \A c \in 1..3 :
+             LET g == IF c = 1 THEN [w |-> 0, h |-> 0, idx |-> <<>>, name |-> <<103, 104>>]                         \* 65536 x 65536 -> 0 indices
+                      ELSE IF c = 2 THEN [w |-> 1, h |-> 2, idx |-> << <<1,0,0,0>>, <<2,0,0,0>> >>, name |-> <<>>]  \* (2^31 + 1) x 2 -> 2 indices
+                      ELSE [w |-> 3, h |-> 1, idx |-> << <<1,0,0,0>>, <<2,0,0,0>>, <<0,0,0,0>> >>, name |-> <<103>>] \* control: 3 x 1, no wrap
+                 m == [Base(1, 2, FALSE) EXCEPT !.groups = << Base(1, 2, FALSE).groups[1], g >>]
+                 parts == MapParts(m, <<0,0,0,0>>, <<1,0,0,0>>)
+                 wi == LastIndexOfPart(parts, "grp.w")
+                 hi == LastIndexOfPart(parts, "grp.h")
+                 wv == IF c = 1 THEN B(0,0,1,0) ELSE IF c = 2 THEN B(1,0,0,128) ELSE B(3,0,0,0)
+                 hv == IF c = 1 THEN B(0,0,1,0) ELSE IF c = 2 THEN LE32(2) ELSE B(1,0,0,0)
+             IN EmitMap(<<"group-area-wrap", c>>, "grp.w+grp.h", SetField(SetField(parts, wi, wv), hi, hv), "any", TRUE)
         /\ \A r \in 1..NRand :
              LET m == IF r % 2 = 0 THEN Base(1, 2, FALSE) ELSE [Base(0, 1, TRUE) EXCEPT !.groups = <<>>]
                  img == FlattenSegs(Segs(MapParts(m, <<0,0,0,0>>, <<1,0,0,0>>))) IN
